@@ -297,7 +297,18 @@ fn main() {
         let d2 = dirs_root.join(format!("merkle_{}", i));
         let mut mem = InMemorySubstateDatabase::standard();
         let mut rocks = RocksdbSubstateStore::standard(d1.clone());
-        let mut merkle = RocksDBWithMerkleTreeSubstateStore::standard(d2.clone());
+        // the Merkle store in both modes: standard() = pruning enabled; with_options(.., false) keeps stale tree parts
+        let mut merkle = if i % 2 == 0 {
+            report.count("merkle_pruning_enabled");
+            RocksDBWithMerkleTreeSubstateStore::standard(d2.clone())
+        } else {
+            report.count("merkle_pruning_disabled");
+            let mut o = radix_substate_store_impls::rocks_db_with_merkle_tree::Options::default();
+            o.create_if_missing(true);
+            o.create_missing_column_families(true);
+            RocksDBWithMerkleTreeSubstateStore::with_options(&o, d2.clone(), false)
+        };
+        let mut merkle_commits_ok = 0u64;
         let mut replay = Replay::default();
         let pks = u.partition_keys();
         let cursors = u.cursors();
@@ -434,6 +445,11 @@ fn main() {
                 }
             } else if merkle_alive {
                 report.count("merkle_commits_ok");
+                merkle_commits_ok += 1;
+                // metadata: the state version counts the commits
+                if merkle.get_current_version() != merkle_commits_ok {
+                    fail("Merkle store state version is not the number of commits", json!({"version": merkle.get_current_version(), "commits": merkle_commits_ok}));
+                }
             }
             report.count("commits");
             ops.push(format!("OCommit {}", updates_coq(&c)));
@@ -477,6 +493,8 @@ fn main() {
     report.floor("nonempty_listings", n);
     report.floor("commits", n);
     report.floor("merkle_commits_ok", n);
+    report.floor("merkle_pruning_enabled", 10);
+    report.floor("merkle_pruning_disabled", 10);
     report.floor("cases_with_prefix_free_keys", n / 2);
     for pn in [0u8, 1, 254, 255] {
         for variant in ["top_key", "empty_key_only", "top_key_only"] {
